@@ -46,6 +46,7 @@ def main(argv):
         i = argv.index("--tier")
         tier = argv[i + 1]
         argv = argv[:i] + argv[i + 2:]
+    os.environ["VERIF_TIER"] = tier
     if argv[0] == "--replay":
         d = json.load(open(argv[1]))
         print(f"replaying {d['property']}: {len(d['violations'])} recorded violation(s); re-running the check on the current tree")
